@@ -1,4 +1,5 @@
 import QuantemModel.Lemmas.UnwrapExtra
+import QuantemModel.Lemmas.UnwrapSession
 /-!
 C17 — reliability-sorted phase unwrapping (Model/Unwrap.lean) recovers any Itoh-smooth phase
 up to one additive constant per connected component of the masked edge graph.
@@ -623,6 +624,214 @@ theorem bf_stack_independent (half : ℝ) (H W : Nat) (bfMask : Nat → Bool) (t
   refine ⟨by simp [unwrapBfStack], fun j hj => ?_⟩
   simp [unwrapBfStack, hj]
 
+/-! ## 10. Argument handling, rejected calls, and histories of calls (growth 5)
+
+`Model/UnwrapSession.lean`: `unwrap_phase_2d_torch` with its dispatch on `method` and what the
+worker does with `phi.shape` and the mask's shape; histories of calls on the module and of `union`
+calls on one `UnionFindPhase` object, accepted and REJECTED ones. -/
+
+/-- the mask a call means: entry `i` of the flattened mask tensor; all-true without a mask -/
+def effMask (mask : Option MaskArg) : Nat → Bool :=
+  match mask with
+  | none => fun _ => true
+  | some m => fun i => m.vals.toArray.getD i false
+
+/-- a well-formed call on an `H × W` grid: reliability sorting, a 2-D phase, no mask or a mask of
+the grid's shape (any values), and — when the merge order is handed in — an order that is a
+permutation of the masked neighbour pairs -/
+structure WellFormed (c : Call ℝ) (H W : Nat) : Prop where
+  method : c.method = .reliabilitySorting
+  shape : c.phiShape = [H, W]
+  mask : ∀ m, c.mask = some m → m.shape = [H, W]
+  order : ∀ o, c.order = some o → o.Perm (maskedPairs H W (effMask c.mask) c.wrap)
+
+/-- **A well-formed call never raises and never diverges, and it is correct** (total correctness
+of the public entry point): the outcome is a field of `H*W` values, and if the stored phase is the
+wrapped truth inside the mask and the truth is Itoh on the masked neighbour pairs, `out - φ` is
+constant on every connected region of the mask — with the merge order handed in or with the
+model's own sort (any function in the place of `_wrap_to_pi`). -/
+theorem call_valid_correct (half : ℝ) (hh : 0 < half) (wrapf : ℝ → ℝ) (c : Call ℝ) (H W : Nat)
+    (hwf : WellFormed c H W) (φ : Nat → ℝ) (n : Nat → ℤ)
+    (hwrap : IsWrapOn half (fun i => i < H * W ∧ effMask c.mask i = true) c.phi φ n)
+    (hitoh : ∀ p ∈ maskedPairs H W (effMask c.mask) c.wrap, |φ p.1 - φ p.2| < half) :
+    ∃ out : List ℝ, callOutcome half wrapf c = .unwrapped out ∧ out.length = H * W ∧
+      ∀ a b, a < H * W → b < H * W → Conn (maskedPairs H W (effMask c.mask) c.wrap) a b →
+        out.getD a 0 - φ a = out.getD b 0 - φ b := by
+  obtain ⟨meth, shape, phi, mask, wrap, order⟩ := c
+  obtain ⟨hm, hs, hmask, hord⟩ := hwf
+  simp only at hm hs hmask hord hwrap hitoh
+  subst hm hs
+  have hval : validateWorker [H, W] mask wrap = .ok (H, W, effMask mask) := by
+    cases mask with
+    | none => rfl
+    | some m =>
+      obtain ⟨ms, mv⟩ := m
+      have : ms = [H, W] := hmask ⟨ms, mv⟩ rfl
+      subst this
+      exact validateWorker_full H W mv wrap
+  cases order with
+  | some o =>
+    obtain ⟨out, h1, h2, h3⟩ := unwrap_correct_grid half hh H W (effMask mask) wrap φ phi n o
+      (hord o rfl) hwrap hitoh
+    exact ⟨out, by simp [callOutcome, hval, h1], h2, h3⟩
+  | none =>
+    obtain ⟨out, h1, h2, h3⟩ := unwrap_reliability_correct half hh wrapf H W (effMask mask) wrap φ phi n
+      hwrap hitoh
+    refine ⟨out, ?_, h2, h3⟩
+    unfold unwrapReliability at h1
+    simp [callOutcome, hval, h1]
+
+/-- **Exception safety over histories of calls on the module.**  In ANY history of calls —
+before and after it any number of other calls, valid ones and rejected ones (unknown method,
+non-2-D phase, mask of a wrong shape, …) — every well-formed call on a smooth field returns what it
+returns when called alone, i.e. the truth up to one constant per connected mask region.  (The
+module keeps no state: `runSession` is the map of `callOutcome`; the harness compares every call
+of real histories, rejected calls included, with exactly this function.) -/
+theorem session_exception_safe (half : ℝ) (hh : 0 < half) (wrapf : ℝ → ℝ) (pre post : List (Call ℝ))
+    (c : Call ℝ) (H W : Nat) (hwf : WellFormed c H W) (φ : Nat → ℝ) (n : Nat → ℤ)
+    (hwrap : IsWrapOn half (fun i => i < H * W ∧ effMask c.mask i = true) c.phi φ n)
+    (hitoh : ∀ p ∈ maskedPairs H W (effMask c.mask) c.wrap, |φ p.1 - φ p.2| < half) :
+    ∃ out : List ℝ, (runSession half wrapf (pre ++ c :: post))[pre.length]? = some (.unwrapped out) ∧
+      out.length = H * W ∧
+      ∀ a b, a < H * W → b < H * W → Conn (maskedPairs H W (effMask c.mask) c.wrap) a b →
+        out.getD a 0 - φ a = out.getD b 0 - φ b := by
+  obtain ⟨out, h1, h2, h3⟩ := call_valid_correct half hh wrapf c H W hwf φ n hwrap hitoh
+  refine ⟨out, ?_, h2, h3⟩
+  simp [runSession, h1]
+
+/-- every call of a history has the outcome it has alone, rejected calls included -/
+theorem session_pointwise {R : Type} [Num R] (half : R) (wrapf : R → R) (cs : List (Call R)) :
+    (runSession half wrapf cs).length = cs.length ∧
+    ∀ k (hk : k < cs.length), (runSession half wrapf cs)[k]? = some (callOutcome half wrapf cs[k]) := by
+  refine ⟨by simp [runSession], fun k hk => ?_⟩
+  simp [runSession, hk]
+
+/-- **The rejected calls** of `unwrap_phase_2d_torch`, by exception type: an unknown method is a
+ValueError whatever the other arguments are; a phase that is not 2-D is a ValueError under both
+methods; the Poisson method on a bounded grid is NotImplementedError; a mask whose shape does not
+broadcast against the grid is a RuntimeError; a mask that does broadcast but has fewer elements
+than the grid (shape `(W,)`, `(1, W)`, `(H, 1)`, `(1, 1)`, …) is an IndexError — it is never silently
+broadcast — on every grid that has a neighbour pair. -/
+theorem rejected_calls {R : Type} [Num R] (half : R) (wrapf : R → R) (c : Call R) :
+    (c.method = .other → callOutcome half wrapf c = .raised .valueError) ∧
+    (c.method ≠ .other → c.phiShape.length ≠ 2 → callOutcome half wrapf c = .raised .valueError) ∧
+    (∀ H W, c.method = .poisson → c.phiShape = [H, W] → c.wrap = false →
+      callOutcome half wrapf c = .raised .notImplementedError) ∧
+    (∀ H W m, c.method = .reliabilitySorting → c.phiShape = [H, W] → c.mask = some m →
+      broadcastShape m.shape [H, W] = none → callOutcome half wrapf c = .raised .runtimeError) ∧
+    (∀ H W m s, c.method = .reliabilitySorting → c.phiShape = [H, W] → c.mask = some m →
+      broadcastShape m.shape [H, W] = some s → numel m.shape < H * W → (c.wrap = true ∨ 2 ≤ H * W) →
+      callOutcome half wrapf c = .raised .indexError) := by
+  obtain ⟨meth, shape, phi, mask, wrap, order⟩ := c
+  refine ⟨?_, ?_, ?_, ?_, ?_⟩
+  · intro h; simp only at h; subst h; rfl
+  · intro hm hl
+    simp only at hm hl
+    have hshape : ∀ a b, shape ≠ [a, b] := by
+      intro a b h; subst h; simp at hl
+    cases meth with
+    | other => exact absurd rfl hm
+    | poisson =>
+      match shape, hshape with
+      | [], _ => rfl
+      | [_], _ => rfl
+      | [a, b], h => exact absurd rfl (h a b)
+      | _ :: _ :: _ :: _, _ => rfl
+    | reliabilitySorting =>
+      match shape, hshape with
+      | [], _ => rfl
+      | [_], _ => rfl
+      | [a, b], h => exact absurd rfl (h a b)
+      | _ :: _ :: _ :: _, _ => rfl
+  · intro H W hm hs hw
+    simp only at hm hs hw
+    subst hm hs hw
+    rfl
+  · intro H W m hm hs hmask hb
+    simp only at hm hs hmask
+    subst hm hs hmask
+    simp [callOutcome, validateWorker, hb]
+  · intro H W m s hm hs hmask hb hsmall hgrid
+    simp only at hm hs hmask hgrid
+    subst hm hs hmask
+    simp [callOutcome, validateWorker_small_mask H W m wrap s hb hsmall hgrid]
+
+/-- **Invariant over every history of `union` calls on one `UnionFindPhase` object, calls that
+RAISE included.**  Take any list of calls `uf.union(i1, i2, inc)` with arbitrary indices.  Exactly
+the calls with an index past the end raise (IndexError from `self.parent[root]`), and they leave
+the object untouched: the final state is the state after the accepted calls alone.  So everything
+proved for accepted edge lists holds after any history: the structure is a rank-ordered forest,
+`find` terminates at a root from every pixel, and the offsets are consistent with every integer
+field the ACCEPTED increments are differences of. -/
+theorem uf_history_invariant (N : Nat) (es : List Edge) :
+    ∃ u, ufHistory (UF.init N) es = some (u, es.map fun e => !InRange N e) ∧
+      unionAll (UF.init N) (es.filter (InRange N)) = some u ∧ WF u N ∧
+      (∀ x, x < N → ∃ r t, u.find x = some (r, t) ∧ r < N ∧ u.par r = r) ∧
+      (∀ n : Nat → Int, (∀ e ∈ es, InRange N e = true → e.inc = n e.i1 - n e.i2) →
+        Consistent u N n ∧ ∀ x r t, x < N → u.find x = some (r, t) → t = n x - n r) := by
+  obtain ⟨u, hhist, hall, hwf⟩ := ufHistory_spec es (UF.init N) (UF.init_wf N)
+  refine ⟨u, hhist, hall, hwf, fun x hx => ?_, fun n hn => ?_⟩
+  · obtain ⟨r, t, h⟩ := UF.find_terminates hwf x hx
+    exact ⟨r, t, h, UF.find_root hwf hx h⟩
+  · have hin : ∀ e ∈ es.filter (InRange N), e.i1 < N ∧ e.i2 < N := by
+      intro e he
+      have := (List.mem_filter.mp he).2
+      simpa [InRange] using this
+    obtain ⟨u', hu', _, hc, _⟩ := unionAll_spec (es.filter (InRange N)) (UF.init N) (UF.init_wf N) hin
+    rw [hall] at hu'
+    obtain rfl : u = u' := by simpa using hu'
+    have hcons : Consistent u N n := hc n (UF.init_consistent N n) (fun e he =>
+      hn e (List.mem_filter.mp he).1 (List.mem_filter.mp he).2)
+    exact ⟨hcons, fun x r t hx h => UF.find_consistent hwf hcons hx h⟩
+
+/-- **Argument handling of `unwrap_bf_overlap_phase_torch`.**  With value tensors of the right
+length: (i) under `method="reliability-sorting"` the function is `unwrapBfOverlap` (to which
+`bf_overlap_full_correct` applies); (ii) `method` is validated LAZILY — an unknown method either
+raises ValueError or, when no unwrapping pass is needed (empty overlap mask, or `max - min ≤ π`),
+returns exactly what the valid method returns.  (iii) A value tensor whose length is neither the
+number of bright-field pixels nor 1 is a RuntimeError. -/
+theorem bf_args_spec (half : ℝ) (H W : Nat) (bfMask : Nat → Bool) (maskBf : List Bool) (phaseBf : List ℝ)
+    (twoPass wrap : Bool) (order1 order2 : List (Nat × Nat)) :
+    (maskBf.length = (bfPositions (H * W) bfMask).length →
+     phaseBf.length = (bfPositions (H * W) bfMask).length →
+      (unwrapBfOverlapM half .reliabilitySorting H W bfMask maskBf phaseBf twoPass wrap order1 order2
+        = match unwrapBfOverlap half H W bfMask maskBf phaseBf twoPass order1 order2 with
+          | none => .diverged
+          | some (br, out) => .result br out) ∧
+      (unwrapBfOverlapM half .other H W bfMask maskBf phaseBf twoPass wrap order1 order2 = .raised .valueError ∨
+        ∃ br out, (br = .noMask ∨ br = .smallRange) ∧
+          unwrapBfOverlapM half .other H W bfMask maskBf phaseBf twoPass wrap order1 order2 = .result br out ∧
+          unwrapBfOverlapM half .reliabilitySorting H W bfMask maskBf phaseBf twoPass wrap order1 order2
+            = .result br out)) ∧
+    (phaseBf.length ≠ (bfPositions (H * W) bfMask).length → phaseBf.length ≠ 1 →
+      ∀ meth, unwrapBfOverlapM half meth H W bfMask maskBf phaseBf twoPass wrap order1 order2
+        = .raised .runtimeError) := by
+  refine ⟨fun hM hP => ⟨?_, ?_⟩, fun hne h1 meth => ?_⟩
+  · unfold unwrapBfOverlapM
+    simp only [scatterVals, hM, hP, beq_self_eq_true, if_true]
+    split
+    · next h =>
+      unfold unwrapBfOverlap bfUnwrapGrid
+      simp only [h, ↓reduceIte]
+    · next h =>
+      split
+      · next h' =>
+        unfold unwrapBfOverlap bfUnwrapGrid
+        simp only [h, h', ↓reduceIte, Bool.false_eq_true]
+      · generalize unwrapBfOverlap half H W bfMask maskBf phaseBf twoPass order1 order2 = r
+        cases r with
+        | none => rfl
+        | some p => obtain ⟨br, out⟩ := p; rfl
+  · unfold unwrapBfOverlapM
+    simp only [scatterVals, hM, hP, beq_self_eq_true, if_true]
+    split
+    · exact Or.inr ⟨.noMask, _, Or.inl rfl, rfl, rfl⟩
+    · split
+      · exact Or.inr ⟨.smallRange, _, Or.inr rfl, rfl, rfl⟩
+      · exact Or.inl rfl
+  · unfold unwrapBfOverlapM
+    simp only [scatterVals_mismatch _ phaseBf hne h1]
+
 /-! ## Non-vacuity -/
 
 /-- the grids that produce self-loops and duplicate edges -/
@@ -720,5 +929,74 @@ example : (edgePairs 3 2 true).count (0, 1) = 1 ∧ (edgePairs 3 2 true).count (
 example : unwrapBfOverlap (1 : Rat) 2 3 (fun i => i % 3 != 0) [true, true, false, true] [3/4, -1/2, 1/8, 1/4] false
       [(2, 5), (1, 2)] []
     = some (.onePass, [-1, -1/4, 0, 1/2]) := by decide +kernel
+
+/-! ### growth 5: argument handling and histories -/
+
+/-- outcome of a call, flattened for comparison in the examples -/
+def outcomeTag {R : Type} : Outcome R → String × Option (List R)
+  | .raised .valueError => ("ValueError", none)
+  | .raised .notImplementedError => ("NotImplementedError", none)
+  | .raised .indexError => ("IndexError", none)
+  | .raised .runtimeError => ("RuntimeError", none)
+  | .unwrapped out => ("ok", some out)
+  | .poisson => ("poisson", none)
+  | .diverged => ("diverged", none)
+
+/-- a history on the module as the harness runs it (2×2 grid, `half = 1`): a row mask of shape
+`(2,)` that broadcasts but has too few elements (IndexError), an unknown method, a 1-D phase, a mask
+that does not broadcast, Poisson on a bounded grid — and the valid call after all of them returns
+what it returns alone -/
+example :
+    let φ : Nat → Rat := fun i => #[0, 3/4, -1/2, 1/4].getD i 0
+    (runSession (1 : Rat) wrapToPiRat [
+      ⟨.reliabilitySorting, [2, 2], φ, some ⟨[2], [true, true]⟩, false, none⟩,
+      ⟨.other, [2, 2], φ, none, false, none⟩,
+      ⟨.reliabilitySorting, [4], φ, none, true, none⟩,
+      ⟨.reliabilitySorting, [2, 2], φ, some ⟨[3], [true, true, true]⟩, true, none⟩,
+      ⟨.poisson, [2, 2], φ, none, false, none⟩,
+      ⟨.poisson, [2, 2], φ, none, true, none⟩,
+      ⟨.reliabilitySorting, [2, 2], φ, some ⟨[2, 2], [true, true, true, true]⟩, false, some [(0, 1), (2, 3), (0, 2), (1, 3)]⟩]).map outcomeTag
+    = [("IndexError", none), ("ValueError", none), ("ValueError", none), ("RuntimeError", none),
+       ("NotImplementedError", none), ("poisson", none),
+       (outcomeTag (callOutcome (1 : Rat) wrapToPiRat
+          ⟨.reliabilitySorting, [2, 2], φ, some ⟨[2, 2], [true, true, true, true]⟩, false,
+            some [(0, 1), (2, 3), (0, 2), (1, 3)]⟩))] := by
+  decide +kernel
+
+/-- `WellFormed` and the hypotheses of `call_valid_correct` / `session_exception_safe` are
+satisfiable by a field that really wraps: the 1×4 ramp above, with a full-shape mask -/
+example : ∃ (c : Call ℝ) (φ : Nat → ℝ) (n : Nat → ℤ), WellFormed c 1 4 ∧
+    IsWrapOn 1 (fun i => i < 1 * 4 ∧ effMask c.mask i = true) c.phi φ n ∧
+    (∀ p ∈ maskedPairs 1 4 (effMask c.mask) c.wrap, |φ p.1 - φ p.2| < 1) ∧ (∃ i, n i ≠ 0) := by
+  refine ⟨⟨.reliabilitySorting, [1, 4], fun i => 3 / 4 * i - 2 * (if i < 2 then 0 else 1 : ℤ),
+      some ⟨[1, 4], [true, true, true, true]⟩, false, none⟩,
+    fun i => 3 / 4 * i, fun i => if i < 2 then 0 else 1, ?_, ?_, ?_, ⟨2, by norm_num⟩⟩
+  · exact ⟨rfl, rfl, fun m hm => by cases hm; rfl, fun o ho => by cases ho⟩
+  · intro i hi
+    have : i = 0 ∨ i = 1 ∨ i = 2 ∨ i = 3 := by have := hi.1; omega
+    rcases this with rfl | rfl | rfl | rfl <;> norm_num
+  · have : maskedPairs 1 4 (effMask (some ⟨[1, 4], [true, true, true, true]⟩)) false = [(0, 1), (1, 2), (2, 3)] := by
+      decide
+    simp only [this]
+    intro p hp
+    simp only [List.mem_cons, List.not_mem_nil, or_false] at hp
+    rcases hp with rfl | rfl | rfl <;> norm_num [abs_lt]
+
+/-- a history of `union` calls with two rejected ones: flags, and the state equals the state after
+the accepted calls alone -/
+example : (ufHistory (UF.init 3) [⟨0, 1, 1⟩, ⟨0, 3, 0⟩, ⟨5, 1, 2⟩, ⟨1, 2, -1⟩]).map (·.2)
+    = some [false, true, true, false] := by decide
+example : ((ufHistory (UF.init 3) [⟨0, 1, 1⟩, ⟨0, 3, 0⟩, ⟨5, 1, 2⟩, ⟨1, 2, -1⟩]).bind fun r => finalOffsets r.1)
+    = (unionAll (UF.init 3) [⟨0, 1, 1⟩, ⟨1, 2, -1⟩]).bind finalOffsets := by decide
+
+/-- lazy validation of `method` in the bright-field function, executed: an unknown method is accepted
+while the range is small, and rejected as soon as a pass is needed; a value tensor of a wrong length
+is rejected -/
+example : (match unwrapBfOverlapM (1 : Rat) .other 1 3 (fun _ => true) [true, true, true] [0, 1/4, 1/2] true true [] [] with
+    | .result br out => some (br, out) | _ => none) = some (.smallRange, [0, 1/4, 1/2]) := by decide +kernel
+example : (match unwrapBfOverlapM (1 : Rat) .other 1 3 (fun _ => true) [true, true, true] [0, 3/4, -1/2] true true [] [] with
+    | .raised e => some e | _ => none) = some .valueError := by decide +kernel
+example : (match unwrapBfOverlapM (1 : Rat) .reliabilitySorting 1 3 (fun _ => true) [true, true, true] [0, 3/4] true true [] [] with
+    | .raised e => some e | _ => none) = some .runtimeError := by decide +kernel
 
 end QuantemModel.Props.C17
